@@ -31,7 +31,11 @@ RULE = ("case = (well-formed encoding, perturbation); encodings come from a "
         "flavours (SSLv3..TLS 1.3, RSA/DHE/ECDHE/SRP/anon, client auth, "
         "tickets, HRR, PSK resumption, ALPN/NPN, compressed certificate) and "
         "from create() with drawn arguments for 18 message classes and 24 "
-        "extension classes (list sizes biased to 0, 1, 255, 256); "
+        "extension classes (list sizes biased to 0, 1, 255, 256), plus the "
+        "non-handshake codecs (RecordHeader3/2, Alert, ChangeCipherSpec, "
+        "Heartbeat, SessionTicketPayload v0/v1/v2, SSLv2 ClientHello / "
+        "ServerHello / ClientMasterKey / Finished) with value-level "
+        "equality of the parsed fields; "
         "perturbations: none, every strict prefix, byte appended inside / "
         "outside the outer length, +-1 at every byte offset (blind sweep for "
         "encodings <= 300 bytes, sampled above), oversize fields for "
@@ -510,6 +514,8 @@ def encoding_for(case):
 def check(case):
     if case["src"] == "oversize":
         return check_oversize(case)
+    if case["src"] == "rec":
+        return check_rec(case)
     try:
         kind, data, ctx, name = encoding_for(case)
     except ValueError as e:
@@ -581,6 +587,242 @@ def check(case):
                labels=labels)
 
 
+# ---------------------------------------------------------------------------
+# non-handshake codecs: record headers, alert, CCS, heartbeat, ticket
+# payload, SSLv2 handshake messages
+# ---------------------------------------------------------------------------
+def _chain(n):
+    from tlslite.x509certchain import X509CertChain
+    c = sc.cred("rsa")[0]
+    return X509CertChain(list(c.x509List) * n) if n else None
+
+
+def rec_build(spec):
+    """spec = [kind, args...] -> object with write()"""
+    k = spec[0]
+    if k == "alert":
+        return M.Alert().create(spec[1], spec[2])
+    if k == "ccs":
+        return M.ChangeCipherSpec().create()
+    if k == "rh3":
+        return M.RecordHeader3().create(tuple(spec[1]), spec[2], spec[3])
+    if k == "rh2":
+        return M.RecordHeader2().create(spec[1], spec[2], bool(spec[3]))
+    if k == "hb":
+        h = M.Heartbeat()
+        h.message_type = spec[1]
+        h.payload = prg("hbp", spec[2])
+        h.padding = prg("hbpad", spec[3])
+        return h
+    if k == "stp":
+        return M.SessionTicketPayload().create(
+            prg("ms", spec[1]), tuple(spec[2]), spec[3], spec[4],
+            nonce=prg("nonce", spec[5]), client_cert_chain=_chain(spec[6]),
+            encrypt_then_mac=bool(spec[7]),
+            extended_master_secret=bool(spec[8]),
+            server_name=prg("sn", spec[9]))
+    if k == "ch2":
+        c = M.ClientHello(ssl2=True)
+        c.client_version = tuple(spec[1])
+        c.cipher_suites = list(spec[2])
+        c.session_id = prg("sid2", spec[3])
+        c.random = prg("chal", spec[4])
+        return c
+    if k == "sh2":
+        return M.ServerHello2().create(spec[1], spec[2], tuple(spec[3]),
+                                       prg("cert2", spec[4]), list(spec[5]),
+                                       prg("sid2", spec[6]))
+    if k == "cmk":
+        return M.ClientMasterKey().create(spec[1], prg("ck", spec[2]),
+                                          prg("ek", spec[3]),
+                                          prg("ka", spec[4]))
+    if k == "fin2":
+        cls = M.ClientFinished if spec[1] else M.ServerFinished
+        return cls().create(prg("vd2", spec[2]))
+    raise HarnessError(k)
+
+
+REC_FIELDS = {
+    "alert": ("level", "description"), "ccs": ("type",),
+    "rh3": ("type", "version", "length"),
+    "rh2": ("length", "padding", "securityEscape"),
+    "hb": ("message_type", "payload", "padding"),
+    "stp": ("version", "master_secret", "protocol_version", "cipher_suite",
+            "creation_time", "nonce", "encrypt_then_mac",
+            "extended_master_secret", "server_name"),
+    "ch2": ("client_version", "cipher_suites", "session_id", "random"),
+    "sh2": ("session_id_hit", "certificate_type", "server_version",
+            "certificate", "ciphers", "session_id"),
+    "cmk": ("cipher", "clear_key", "encrypted_key", "key_argument"),
+    "fin2": ("verify_data",),
+}
+# errors the callers of each parser treat as "malformed"
+REC_ERRORS = {"stp": DECODE_ERRORS + (ValueError,)}
+
+
+def rec_fields(k, o):
+    out = []
+    for f in REC_FIELDS[k]:
+        v = getattr(o, f)
+        if isinstance(v, (bytes, bytearray)):
+            v = bytes(v)
+        elif isinstance(v, (list, tuple)):
+            v = tuple(v)
+        elif isinstance(v, bool):
+            v = int(v)
+        out.append(v)
+    if k == "stp":
+        ch = o.client_cert_chain
+        out.append(tuple(bytes(x.bytes) for x in ch.x509List) if ch else ())
+    return out
+
+
+def rec_parse(k, data, spec):
+    """-> (object, bytes consumed)"""
+    p = Parser(bytearray(data))
+    if k == "alert":
+        o = M.Alert().parse(p)
+    elif k == "ccs":
+        o = M.ChangeCipherSpec().parse(p)
+    elif k == "rh3":
+        o = M.RecordHeader3().parse(p)
+    elif k == "rh2":
+        o = M.RecordHeader2().parse(p)
+    elif k == "hb":
+        o = M.Heartbeat().parse(p)
+    elif k == "stp":
+        o = M.SessionTicketPayload().parse(p)
+    elif k == "ch2":
+        p.get(1)
+        o = M.ClientHello(ssl2=True).parse(p)
+    elif k == "sh2":
+        p.get(1)
+        o = M.ServerHello2().parse(p)
+    elif k == "cmk":
+        p.get(1)
+        o = M.ClientMasterKey().parse(p)
+    elif k == "fin2":
+        p.get(1)
+        o = (M.ClientFinished if spec[1] else M.ServerFinished)().parse(p)
+    else:
+        raise HarnessError(k)
+    return o, p.index
+
+
+def check_rec(case):
+    spec = case["spec"]
+    k = spec[0]
+    mut = case["mut"]
+    labels = ["src=rec", "cls=" + k, "mut=" + mut[0]]
+    errs = REC_ERRORS.get(k, DECODE_ERRORS)
+    try:
+        obj = rec_build(spec)
+        data = bytes(obj.write())
+    except ValueError:
+        return good(nt=False, labels=labels + ["write-refused"])
+    nt = len(data) >= 2
+    if mut[0] == "none":
+        try:
+            o2, used = rec_parse(k, data, spec)
+            out = bytes(o2.write())
+        except errs as e:
+            return bad("wellformed-rejected:%s" % k, "%r on %s" % (
+                e, data[:40].hex()), nt=nt, labels=labels)
+        if used != len(data):
+            return bad("parser-consumed-wrong-length:%s" % k,
+                       "%d of %d" % (used, len(data)), nt=nt, labels=labels)
+        if k == "ch2" and spec[4] < 32:
+            # SSLv2 challenge shorter than 32 bytes: left-padded by design
+            # into the 32-byte TLS client random
+            return good(nt=False, labels=labels + ["ch2-challenge-padded"])
+        if out != data:
+            return bad("roundtrip-differs:%s" % k, "%s -> %s" % (
+                data[:60].hex(), out[:60].hex()), nt=nt, labels=labels)
+        a, b = rec_fields(k, obj), rec_fields(k, o2)
+        if a != b:
+            return bad("roundtrip-value-differs:%s" % k, "%r -> %r" % (
+                a, b), nt=nt, labels=labels)
+        return good(nt=nt, labels=labels)
+    if mut[0] == "append_inside":
+        return good(nt=False, labels=labels + ["no-outer-length"])
+    if mut[0] == "append_outside":
+        pdata = data + b"\x00"
+    else:
+        typed = k in ("ch2", "sh2", "cmk", "fin2")
+        pdata, _ = perturb(data, list(mut) + ["msg" if typed else "rec"])
+        if typed and pdata[:1] != data[:1]:
+            return good(nt=False, labels=labels + ["dispatch-byte"])
+    try:
+        o2, used = rec_parse(k, pdata, spec)
+        out = bytes(o2.write())
+    except errs:
+        return good(nt=nt, labels=labels + ["rejected"])
+    except ValueError:
+        # write() of the parsed value refuses: it was not well-formed
+        return bad("lenient-parse:%s:%s" % (k, mut[0]),
+                   "parsed %s but cannot re-encode" % pdata[:40].hex(),
+                   nt=nt, labels=labels)
+    if out == pdata[:used]:
+        if used < len(pdata) and k in ("stp", "ccs"):
+            # these parsers own the whole buffer
+            return bad("reads-short:%s" % k, "", nt=nt, labels=labels)
+        return good(nt=nt, labels=labels + ["still-wellformed"])
+    if k == "rh2" and used == 3 and not pdata[2] and not pdata[0] & 0x40:
+        # 3-byte header without padding or escape: second legal encoding
+        return good(nt=nt, labels=labels + ["rh2-long-form"])
+    if k == "ch2" and len(out) > len(pdata[:used]):
+        # challenge shorter than 32 bytes is left-padded by design
+        return good(nt=nt, labels=labels + ["ch2-challenge-padded"])
+    if k == "stp" and used == len(pdata):
+        # booleans are normalised (any non-zero byte -> 1)
+        o3, _ = rec_parse(k, out, spec)
+        if rec_fields(k, o3) == rec_fields(k, o2) and len(out) == len(pdata):
+            return good(nt=nt, labels=labels + ["stp-bool-normalised"])
+    return bad("lenient-parse:%s:%s" % (k, mut[0]),
+               "perturbed %s accepted (%d used), re-encodes as %s" % (
+                   pdata[:48].hex(), used, out[:48].hex()), nt=nt,
+               labels=labels)
+
+
+def rec_oversize(what):
+    if what == "rh3_len":
+        return M.RecordHeader3().create((3, 3), 23, 65536).write()
+    if what == "rh2_len":
+        return M.RecordHeader2().create(0x8000).write()
+    if what == "rh2_len_pad":
+        return M.RecordHeader2().create(0x4000, 1).write()
+    if what == "alert_desc":
+        return M.Alert().create(256, 2).write()
+    if what == "hb_payload":
+        h = M.Heartbeat()
+        h.payload = prg("x", 65536)
+        return h.write()
+    if what == "stp_ms":
+        return M.SessionTicketPayload().create(prg("m", 65536), (3, 3), 1,
+                                               1).write()
+    if what == "stp_nonce":
+        return M.SessionTicketPayload().create(prg("m", 48), (3, 4), 1, 1,
+                                               nonce=prg("n", 256)).write()
+    if what == "stp_sn":
+        return M.SessionTicketPayload().create(
+            prg("m", 48), (3, 4), 1, 1,
+            server_name=prg("n", 65536)).write()
+    if what == "cmk_key":
+        return M.ClientMasterKey().create(1, prg("c", 65536), b"",
+                                          b"").write()
+    if what == "sh2_cert":
+        return M.ServerHello2().create(0, 1, (0, 2), prg("c", 65536), [],
+                                       b"").write()
+    if what == "ch2_sid":
+        c = M.ClientHello(ssl2=True)
+        c.client_version = (3, 1)
+        c.cipher_suites = [1]
+        c.session_id = prg("s", 65536)
+        c.random = prg("r", 32)
+        return c.write()
+    return None
+
+
 def check_oversize(case):
     """(2) write() must raise ValueError instead of wrapping a length."""
     what = case["what"]
@@ -618,7 +860,9 @@ def check_oversize(case):
             b = E.TLSExtension(extType=0xff0).create(prg("x",
                                                          65536)).write()
         else:
-            raise HarnessError(what)
+            b = rec_oversize(what)
+            if b is None:
+                raise HarnessError(what)
     except ValueError:
         return good(labels=labels + ["ValueError"])
     except OverflowError as e:
@@ -783,6 +1027,63 @@ def msg_spec(draw):
     return d
 
 
+@st.composite
+def rec_spec(draw):
+    k = draw(st.sampled_from(sorted(REC_FIELDS)))
+    ver = draw(st.sampled_from([[3, 0], [3, 1], [3, 3], [3, 4], [2, 0],
+                                [255, 255], [0, 0]]))
+    u24s = st.lists(st.one_of(st.sampled_from([0, 1, 0xffffff, 0x010080]),
+                              st.integers(0, 0xffffff)), max_size=4)
+    if k == "alert":
+        return [k, draw(u8), draw(u8)]
+    if k == "ccs":
+        return [k]
+    if k == "rh3":
+        return [k, ver, draw(u8), draw(u16)]
+    if k == "rh2":
+        return [k, draw(st.one_of(st.sampled_from(
+            [0, 1, 0xff, 0x100, 0x3fff, 0x4000, 0x7fff]),
+            st.integers(0, 0x7fff))), draw(st.sampled_from([0, 0, 1, 7, 255])),
+            draw(st.booleans())]
+    if k == "hb":
+        return [k, draw(u8), draw(sizes), draw(st.sampled_from([0, 16, 17,
+                                                                 255]))]
+    if k == "stp":
+        return [k, draw(st.sampled_from([0, 32, 48, 256])), ver, draw(u16),
+                draw(st.one_of(st.sampled_from([0, 1, 2 ** 32, 2 ** 64 - 1]),
+                               st.integers(0, 2 ** 64 - 1))),
+                draw(st.sampled_from([0, 1, 32, 255])),
+                draw(st.sampled_from([0, 0, 1, 2])), draw(st.booleans()),
+                draw(st.booleans()), draw(st.sampled_from([0, 0, 1, 11,
+                                                           256]))]
+    if k == "ch2":
+        return [k, ver, draw(u24s), draw(st.sampled_from([0, 16, 32])),
+                draw(st.sampled_from([32, 32, 32, 16, 33]))]
+    if k == "sh2":
+        return [k, draw(u8), draw(u8), ver, draw(sizes), draw(u24s),
+                draw(st.sampled_from([0, 16, 32]))]
+    if k == "cmk":
+        return [k, draw(st.integers(0, 0xffffff)), draw(sizes), draw(sizes),
+                draw(st.sampled_from([0, 8, 16]))]
+    return [k, draw(st.booleans()), draw(st.sampled_from([0, 1, 16, 32]))]
+
+
+REC_EXPLICIT = [
+    ["alert", 2, 40], ["alert", 1, 0], ["ccs"], ["rh3", [3, 3], 22, 0],
+    ["rh3", [3, 1], 23, 0xffff], ["rh2", 0x7fff, 0, False],
+    ["rh2", 0x3fff, 7, True], ["rh2", 5, 0, True], ["hb", 1, 0, 16],
+    ["hb", 2, 32, 16], ["hb", 1, 3, 0],
+    ["stp", 48, [3, 3], 0xc02f, 1700000000, 0, 0, False, False, 0],
+    ["stp", 48, [3, 4], 0x1301, 1700000000, 32, 1, False, False, 0],
+    ["stp", 48, [3, 3], 0x2f, 5, 0, 0, True, True, 11],
+    ["stp", 32, [3, 4], 0x1302, 2 ** 64 - 1, 255, 2, True, False, 256],
+    ["ch2", [3, 1], [0x010080, 0x2f, 0xff], 0, 32],
+    ["ch2", [0, 2], [0x010080], 16, 32],
+    ["sh2", 0, 1, [0, 2], 32, [0x010080, 0x020080], 16],
+    ["cmk", 0x010080, 0, 32, 8], ["fin2", True, 16], ["fin2", False, 16],
+]
+
+
 def mut_strategy():
     return st.one_of(
         st.just(["none"]),
@@ -794,9 +1095,12 @@ def mut_strategy():
 
 @st.composite
 def cases(draw, tier):
-    src = draw(st.sampled_from(["corpus", "corpus", "msg", "msg", "ext"]))
+    src = draw(st.sampled_from(["corpus", "corpus", "msg", "msg", "ext",
+                                "rec"]))
     c = {"src": src, "mut": draw(mut_strategy())}
-    if src == "corpus":
+    if src == "rec":
+        c["spec"] = draw(rec_spec())
+    elif src == "corpus":
         c["idx"] = draw(st.integers(0, 400))
     elif src == "msg":
         c["spec"] = draw(msg_spec())
@@ -830,5 +1134,18 @@ def explicit(tier, seed):
             yield {"src": "corpus", "idx": i, "mut": ["inc", k, False]}
     for what in ("sid", "alpn_name", "sni_name", "cookie", "suites",
                  "ticket", "nonce13", "npn", "groups", "psk_binder",
-                 "cv_sig", "ext_payload"):
+                 "cv_sig", "ext_payload", "rh3_len", "rh2_len",
+                 "rh2_len_pad", "alert_desc", "hb_payload", "stp_ms",
+                 "stp_nonce", "stp_sn", "cmk_key", "sh2_cert", "ch2_sid"):
         yield {"src": "oversize", "what": what}
+    for spec in REC_EXPLICIT:
+        try:
+            L = len(rec_build(spec).write())
+        except ValueError:
+            L = 0
+        yield {"src": "rec", "spec": spec, "mut": ["none"]}
+        yield {"src": "rec", "spec": spec, "mut": ["append_outside"]}
+        for k in range(0, min(L, 400)):
+            yield {"src": "rec", "spec": spec, "mut": ["prefix", k]}
+            yield {"src": "rec", "spec": spec, "mut": ["inc", k, True]}
+            yield {"src": "rec", "spec": spec, "mut": ["inc", k, False]}
